@@ -349,3 +349,4 @@ TECHNIQUE = 'fault injection at every printer invocation (by node identity) with
 LEVEL_TEXT = ('For every generated tree, every instrumented node is made to fail in turn with each of seven exception classes at two points of its printer (all single faults enumerated; pairs and invalid '
               'return values sampled); the output must be byte-identical to the same tree with only that node replaced by its repr, with the right warning, and later fault-free prints must be unaffected.')
 LEVEL_NOTE = 'Trees are random (not all shapes); faults are injected in a user printer registered by the harness, the containment code under test is the real _run_pretty.'
+ANCHORS = ['prettyprinter._run_pretty', 'prettyprinter._warn_about_bad_printer', 'prettyprinter.PrettyContext.end_visit']
